@@ -17,9 +17,10 @@ META = {
         "evaluation of ServerProxy.__init__ and _run_request over URL shapes, is path [+ '?' + query] with '/' substituted "
         "only for an empty path and always for unix+ URLs; C17.5 the same evaluation shows every scheme outside "
         "{http, https, unix+http} raising IOError in the constructor and every accepted one storing a transport; C17.6 (imported from "
-        "C19.3) each response is fed into a parser/target created for it, and close() returns exactly the join of what was fed. C17.7 (imported from C18.3) the read-only header table consulted when additional headers are merged is exactly {content-length, content-type} (lower case): a pushed Content-Type cannot replace or duplicate the configured one. C17.8 every constructor that receives a `config` hands that very object to each package constructor it calls (positionally or by keyword, against the callee's signature): the content type declared by a server / handler is the one of the Config it was given."),
+        "C19.3) each response is fed into a parser/target created for it, and close() returns exactly the join of what was fed. C17.7 (imported from C18.3) the read-only header table consulted when additional headers are merged is exactly {content-length, content-type} (lower case): a pushed Content-Type cannot replace or duplicate the configured one. C17.8 every constructor that receives a `config` hands that very object to each package constructor it calls (positionally or by keyword, against the callee's signature): the content type declared by a server / handler is the one of the Config it was given. C17.9 every normal path through TransportMixIn.send_request passes exactly one connection.putrequest(\"POST\", handler, ...): the request line carries the method the library's servers answer and the target computed by the proxy."),
     "does_not_decide": "gzip decoding, HTTP parsing, actual byte streams (http.client behaviour).",
-    "rules": {"C17.8": "constructor call scan (common.check_config_forwarding)",
+    "rules": {"C17.9": "must-pass-through on the CFG of send_request + literal / provenance of the two arguments",
+              "C17.8": "constructor call scan (common.check_config_forwarding)",
               "C17.7": "imported C18.3 (read-only header table, constant folding vs spec)",
               "C17.1": "same-reaching-definition (E2) + provenance", "C17.2": "provenance", "C17.3": "loop-body call scan + reachability",
               "C17.4": "shape interpreter (E7) over URL shapes", "C17.5": "shape interpreter over schemes vs spec A.7", "C17.6": "imported C19.3"},
@@ -41,10 +42,20 @@ def check(ck):
         writes = [(n, c) for n in g.live_nodes() for c in node_calls(n) if call_name(c) == wr and len(c.args) == 1 and
                   (wr != "write" or "write" in dump(c.func))]
         lens = []
+
+        def _hname(c):
+            # header name as emitted: `putheader("Content-Length", v)` / `send_header(...)`; the CGI handler prints "Name:" then the value
+            v = str(c.args[0].value)
+            if hdr == "print":
+                return v.lower() if v.endswith(":") and not v[:-1].endswith((":", " ")) else None, v
+            return v.lower() + ":", v
         for n in g.live_nodes():
             for c in node_calls(n):
                 if call_name(c) == hdr and c.args and isinstance(c.args[0], ast.Constant) and "content-length" in str(c.args[0].value).lower():
                     lens.append((n, c))
+                    nm, raw = _hname(c)
+                    ck.require(nm == "content-length:", "C17.1", "%s: header name of the declared length" % q.fn(fi), "Content-Length",
+                               "the length is declared under the name `%s`, which is not the Content-Length header" % raw, q.loc(fi, n))
         if len(writes) != 1 or len(lens) != 1:
             raise AnalysisError("anchor vanished: body write / Content-Length emission in %s (%d/%d)" % (q.fn(fi), len(writes), len(lens)))
         wn, wc = writes[0]
@@ -61,7 +72,7 @@ def check(ck):
             continue
         var = wc.args[0].id
         inner = val
-        if isinstance(inner, ast.Call) and dump(inner.func) == "str" and inner.args:
+        if isinstance(inner, ast.Call) and dump(inner.func) in ("str", "repr") and len(inner.args) == 1 and not inner.keywords:      # (the same text for an int)
             inner = inner.args[0]
         okk = isinstance(inner, ast.Call) and dump(inner.func) == "len" and inner.args and isinstance(inner.args[0], ast.Name) and inner.args[0].id == var
         same = okk and rd.get(ln.id, {}).get(var) == rd.get(wn.id, {}).get(var)
@@ -77,6 +88,10 @@ def check(ck):
             for c in node_calls(n):
                 if call_name(c) == hdr and c.args and isinstance(c.args[0], ast.Constant) and "content-type" in str(c.args[0].value).lower():
                     cts.append((n, c))
+        for (n_, c_) in cts:
+            nm, raw = _hname(c_)
+            ck.require(nm == "content-type:", "C17.2", "%s: header name of the content type" % q.fn(fi), "Content-Type",
+                       "the content type is sent under the name `%s`, which is not the Content-Type header" % raw, q.loc(fi, n_))
         ctv = dump(cts[0][1].args[1]) if cts and len(cts[0][1].args) > 1 else None
         ck.require(len(cts) == 1 and ctv == ctype, "C17.2", "%s: Content-Type from the configuration" % q.fn(fi), ctype,
                    "the emitted content type is `%s`, not the configured %s" % (ctv, ctype), q.loc(fi, ln))
@@ -305,6 +320,34 @@ def check(ck):
     # ---- C17.8 the configuration reaches every layer (shared with C01.10) --------------------------------------------------------
     common.check_config_forwarding(ck, "C17.8")
     ck.floor("C17.8", 4)
+
+    # ---- C17.9 the request line: one putrequest("POST", <handler>) on every path of send_request -----------------------------------
+    fq_ = prog.func("jsonrpc", "TransportMixIn.send_request")
+    gq = cfg_of(fq_)
+    puts = [(n, c) for n in gq.live_nodes() for c in node_calls(n) if call_name(c) == "putrequest"]
+    if not puts:
+        raise AnalysisError("anchor vanished: putrequest(...) in %s" % q.fn(fq_))
+    from vlib.flow import reachable_avoiding as _ra9
+    put_ids = set(n.id for n, _c in puts)
+    normal = lambda l: l != "exc"       # noqa: E731
+    rets = [n for n in gq.live_nodes() if n.kind == "return"]
+    free = _ra9(gq, gq.entry.id, put_ids, normal)
+    skipped = [r for r in rets if r.id in free]
+    ck.require(not skipped, "C17.9", "%s: putrequest on every path" % q.fn(fq_), "every normal path to the return passes a putrequest call",
+               "a path through send_request returns without calling putrequest: no request line is sent before the headers and the body",
+               q.loc(fq_, skipped[0] if skipped and skipped[0].ast is not None else fq_.node))
+    for (n, c) in puts:
+        again = [m for (m, _c2) in puts if m.id != n.id and m.id in _ra9(gq, n.id, set(), normal)]
+        ck.require(not again, "C17.9", "%s: `%s` is the only request line on its path" % (q.fn(fq_), dump(c)[:50]), "one putrequest per path",
+                   "a second putrequest follows on the same path", q.loc(fq_, n))
+        meth = c.args[0] if c.args else None
+        ck.require(isinstance(meth, ast.Constant) and meth.value == "POST", "C17.9", "%s: `%s` method" % (q.fn(fq_), dump(c)[:50]), "POST",
+                   "the request method is `%s`: the servers of this library answer POST only" % (dump(meth) if meth is not None else None), q.loc(fq_, n))
+        tgt = c.args[1] if len(c.args) > 1 else None
+        okt = tgt is not None and all(a == ("param", "handler") for a in prov.alts(prov.origin(gq, n, tgt)))
+        ck.require(okt, "C17.9", "%s: `%s` target" % (q.fn(fq_), dump(c)[:50]), "the handler it was given (path + query string, C17.4)",
+                   "the request target is `%s`, not the handler passed by the caller" % (dump(tgt) if tgt is not None else None), q.loc(fq_, n))
+    ck.floor("C17.9", 6)
 
 
 def _reach_before_exit(g, start, head):
